@@ -321,7 +321,7 @@ impl<'a> Run<'a> {
           self.task_path.insert(t, path.clone());
         }
         // (the byte length is not logged: the manifest carries a timestamp of varying width)
-        v.push(json!({"r": self.rel_r(p.id), "op": p.op, "path": path}));
+        v.push(json!({"r": self.rel_r(p.id), "op": p.op, "path": path, "empty": p.op == "put" && p.len == 0}));
       }
     }
     v
